@@ -1,5 +1,682 @@
 package main
 
-func (g *gen) genListeners() {}
+import (
+	"bufio"
+	"bytes"
+	"context"
+	"crypto/ecdsa"
+	"crypto/elliptic"
+	"crypto/rand"
+	"crypto/tls"
+	"crypto/x509"
+	"crypto/x509/pkix"
+	"encoding/binary"
+	"fmt"
+	"log/slog"
+	"math/big"
+	"net"
+	"os"
+	"sync"
+	"time"
 
-func runNet(j job) (string, bool) { return "", false }
+	"github.com/google/gopacket"
+	"github.com/scionproto/scion/pkg/addr"
+	"github.com/scionproto/scion/pkg/slayers"
+	"github.com/scionproto/scion/pkg/slayers/path"
+	"github.com/scionproto/scion/pkg/slayers/path/empty"
+	"github.com/scionproto/scion/pkg/slayers/path/onehop"
+	scionpath "github.com/scionproto/scion/pkg/slayers/path/scion"
+
+	"example.com/scion-time/core/server"
+	"example.com/scion-time/core/timebase"
+	"example.com/scion-time/net/csptp"
+	"example.com/scion-time/net/ntp"
+	"example.com/scion-time/net/nts"
+	"example.com/scion-time/net/ntske"
+	"example.com/scion-time/net/udp"
+
+	"verifharness/lib"
+)
+
+const (
+	ipPort      = 20123
+	scionPort   = 10123
+	endhostPort = 30041
+	kePortSCION = 14460
+	localIA     = 0x0001ff0000000111
+	readLimit   = 25 * time.Second
+)
+
+type sysClock struct{}
+
+func (sysClock) Epoch() uint64                                    { return 0 }
+func (sysClock) Now() time.Time                                   { return time.Now().UTC() }
+func (sysClock) Drift(d time.Duration) time.Duration              { return 0 }
+func (sysClock) Step(offset time.Duration)                        {}
+func (sysClock) Adjust(offset, duration time.Duration, f float64) {}
+func (sysClock) Sleep(d time.Duration)                            { time.Sleep(d) }
+
+// csptpLog records the "received request" records of the CSPTP listener: the listener never
+// replies (its response path is not wired up yet), so its log is the observation point.
+type csptpLog struct {
+	mu   sync.Mutex
+	seen []csptpSeen
+}
+
+type csptpSeen struct {
+	from string
+	seq  uint16
+}
+
+func (h *csptpLog) Enabled(context.Context, slog.Level) bool { return true }
+func (h *csptpLog) WithAttrs([]slog.Attr) slog.Handler       { return h }
+func (h *csptpLog) WithGroup(string) slog.Handler            { return h }
+func (h *csptpLog) Handle(_ context.Context, r slog.Record) error {
+	if r.Message != "received request" {
+		return nil
+	}
+	var s csptpSeen
+	r.Attrs(func(a slog.Attr) bool {
+		switch a.Key {
+		case "from":
+			s.from = a.Value.String()
+		case "reqmsg":
+			if m, ok := a.Value.Any().(*csptp.Message); ok {
+				s.seq = m.SequenceID
+			}
+		}
+		return true
+	})
+	h.mu.Lock()
+	h.seen = append(h.seen, s)
+	h.mu.Unlock()
+	return nil
+}
+
+func (h *csptpLog) take(from string) []uint16 {
+	h.mu.Lock()
+	defer h.mu.Unlock()
+	var seqs []uint16
+	var rest []csptpSeen
+	for _, s := range h.seen {
+		if s.from == from {
+			seqs = append(seqs, s.seq)
+		} else {
+			rest = append(rest, s)
+		}
+	}
+	h.seen = rest
+	return seqs
+}
+
+type netEnv struct {
+	provider *ntske.Provider
+	srvIP    net.IP // the real listeners
+	peerIP   net.IP // scripted peers and sending sockets
+	tlsSrv   *tls.Config
+	clog     *csptpLog
+	seq      uint32
+	sock     *net.UDPConn // sending socket for the IP and SCION listeners
+	csock    *net.UDPConn // sending socket for the CSPTP listeners
+}
+
+var (
+	ne     *netEnv
+	neOnce sync.Once
+)
+
+func ownAddr(second byte) net.IP {
+	pid := os.Getpid()
+	return net.IPv4(127, second, byte(pid>>8), byte(pid)).To4()
+}
+
+func selfSigned() tls.Certificate {
+	key, err := ecdsa.GenerateKey(elliptic.P256(), rand.Reader)
+	if err != nil {
+		panic(err)
+	}
+	tmpl := &x509.Certificate{
+		SerialNumber: big.NewInt(1), Subject: pkix.Name{CommonName: "c08"},
+		NotBefore: time.Now().Add(-time.Hour), NotAfter: time.Now().Add(24 * time.Hour),
+		KeyUsage: x509.KeyUsageDigitalSignature, ExtKeyUsage: []x509.ExtKeyUsage{x509.ExtKeyUsageServerAuth},
+		DNSNames: []string{"c08"}, IPAddresses: []net.IP{ownAddr(8), ownAddr(108)},
+	}
+	der, err := x509.CreateCertificate(rand.Reader, tmpl, tmpl, &key.PublicKey, key)
+	if err != nil {
+		panic(err)
+	}
+	return tls.Certificate{Certificate: [][]byte{der}, PrivateKey: key}
+}
+
+// setupNet starts the real listeners once per process.
+func setupNet() *netEnv {
+	neOnce.Do(func() {
+		e := &netEnv{}
+		timebase.RegisterClock(sysClock{})
+		e.provider = ntske.NewProvider()
+		e.srvIP, e.peerIP = ownAddr(8), ownAddr(108)
+		e.clog = &csptpLog{}
+		ctx := context.Background()
+		quiet := slog.New(slog.DiscardHandler)
+		cert := selfSigned()
+		e.tlsSrv = &tls.Config{Certificates: []tls.Certificate{cert}, NextProtos: []string{"ntske/1"}, MinVersion: tls.VersionTLS13}
+		server.StartIPServer(ctx, quiet, &net.UDPAddr{IP: e.srvIP, Port: ipPort}, 0, e.provider)
+		server.StartSCIONServer(ctx, quiet, "", &net.UDPAddr{IP: e.srvIP, Port: scionPort}, 0, e.provider)
+		server.StartCSPTPServerIP(ctx, slog.New(e.clog), &net.UDPAddr{IP: e.srvIP}, 0)
+		server.StartNTSKEServerIP(ctx, quiet, e.srvIP, ipPort, e.tlsSrv.Clone(), e.provider)
+		server.StartNTSKEServerSCION(ctx, quiet, udp.UDPAddr{IA: addr.IA(localIA), Host: &net.UDPAddr{IP: e.srvIP, Port: scionPort}}, e.tlsSrv.Clone(), e.provider)
+		var err error
+		e.sock, err = net.ListenUDP("udp4", &net.UDPAddr{IP: e.peerIP})
+		if err != nil {
+			panic(err)
+		}
+		e.sock.SetReadBuffer(1 << 20)
+		e.csock, err = net.ListenUDP("udp4", &net.UDPAddr{IP: e.peerIP})
+		if err != nil {
+			panic(err)
+		}
+		time.Sleep(200 * time.Millisecond)
+		ne = e
+	})
+	return ne
+}
+
+// ---- sentinels ----
+
+const sentinelSecs = 0x5E471E08
+
+func (e *netEnv) nextSentinel() []byte {
+	e.seq++
+	s := make([]byte, ntp.PacketLen)
+	s[0] = 4<<3 | 3
+	binary.BigEndian.PutUint32(s[40:], sentinelSecs)
+	binary.BigEndian.PutUint32(s[44:], e.seq)
+	return s
+}
+
+func (e *netEnv) isSentinelReply(p []byte) bool {
+	return len(p) >= ntp.PacketLen && binary.BigEndian.Uint32(p[24:]) == sentinelSecs && binary.BigEndian.Uint32(p[28:]) == e.seq
+}
+
+// ntsSession is what a client has after a key exchange with the listeners' provider.
+type ntsSession struct {
+	c2s, s2c []byte
+	cookie   []byte
+}
+
+func (e *netEnv) newSession() ntsSession {
+	s := ntsSession{c2s: make([]byte, 32), s2c: make([]byte, 32)}
+	rand.Read(s.c2s)
+	rand.Read(s.s2c)
+	key := e.provider.Current()
+	sc := ntske.ServerCookie{Algo: ntske.AES_SIV_CMAC_256, S2C: s.s2c, C2S: s.c2s}
+	ec, err := sc.EncryptWithNonce(key.Value, key.ID)
+	if err != nil {
+		panic(err)
+	}
+	s.cookie = ec.Encode()
+	return s
+}
+
+// craftNTS writes an NTS request by hand so that every field can be malformed.
+func craftNTS(hdr []byte, fields [][]byte, c2s, plain []byte, nonceLen int, tagDamage bool) []byte {
+	b := clone(hdr)
+	for _, f := range fields {
+		b = append(b, f...)
+	}
+	nonce := make([]byte, 16)
+	rand.Read(nonce)
+	var ct []byte
+	if len(c2s) == 32 || len(c2s) == 64 {
+		ct = sivSeal(c2s, nonce, plain, b)
+	} else {
+		ct = make([]byte, 16+len(plain))
+	}
+	if tagDamage {
+		ct[0] ^= 1
+	}
+	n := nonce
+	if nonceLen != 16 {
+		n = make([]byte, nonceLen)
+		copy(n, nonce)
+	}
+	npad := (4 - len(n)%4) % 4
+	cpad := (4 - len(ct)%4) % 4
+	b = binary.BigEndian.AppendUint16(b, 0x404)
+	b = binary.BigEndian.AppendUint16(b, uint16(8+len(n)+npad+len(ct)+cpad))
+	b = binary.BigEndian.AppendUint16(b, uint16(len(n)))
+	b = binary.BigEndian.AppendUint16(b, uint16(len(ct)))
+	b = append(b, n...)
+	b = append(b, make([]byte, npad)...)
+	b = append(b, ct...)
+	b = append(b, make([]byte, cpad)...)
+	return b
+}
+
+func extField(t uint16, body []byte) []byte {
+	pad := (4 - len(body)%4) % 4
+	b := binary.BigEndian.AppendUint16(nil, t)
+	b = binary.BigEndian.AppendUint16(b, uint16(4+len(body)+pad))
+	b = append(b, body...)
+	return append(b, make([]byte, pad)...)
+}
+
+func ntpHeader(r *lib.Rng) []byte {
+	h := make([]byte, 48)
+	h[0] = 0x23
+	copy(h[40:], r.Bytes(8))
+	return h
+}
+
+// ntsSentinel is a well-formed NTS request of a fresh association; the reply must verify.
+func (e *netEnv) ntsSentinel() (req []byte, check func([]byte) bool) {
+	s := e.newSession()
+	data := ntske.Data{C2sKey: s.c2s, S2cKey: s.s2c, Cookie: [][]byte{s.cookie}, Algo: ntske.AES_SIV_CMAC_256}
+	pkt, id := nts.NewRequestPacket(data)
+	buf := make([]byte, ntp.PacketLen)
+	buf[0] = 4<<3 | 3
+	e.seq++
+	binary.BigEndian.PutUint32(buf[40:], sentinelSecs)
+	binary.BigEndian.PutUint32(buf[44:], e.seq)
+	nts.EncodePacket(&buf, &pkt)
+	return buf, func(rep []byte) (ok bool) {
+		defer func() {
+			if recover() != nil {
+				ok = false
+			}
+		}()
+		if !e.isSentinelReply(rep) {
+			return false
+		}
+		var p nts.Packet
+		if nts.DecodePacket(&p, rep) != nil {
+			return false
+		}
+		var f ntske.Fetcher
+		return nts.ProcessResponse(rep, s.s2c, &f, &p, id) == nil
+	}
+}
+
+// exchange sends pkt and then the sentinel from the sending socket and reads until the sentinel's
+// reply arrives; replies that came before it belong to pkt.
+func (e *netEnv) exchange(dst *net.UDPAddr, pkt, sentinel []byte, isSentinel func([]byte) bool) (reps [][]byte, answered bool) {
+	c := e.sock
+	if pkt != nil {
+		if _, err := c.WriteToUDP(pkt, dst); err != nil {
+			note(fmt.Sprintf("write failed: %v (len %d)", err, len(pkt)))
+		}
+	}
+	if _, err := c.WriteToUDP(sentinel, dst); err != nil {
+		note(fmt.Sprintf("write failed: %v", err))
+	}
+	buf := make([]byte, 65536)
+	deadline := time.Now().Add(readLimit)
+	for {
+		c.SetReadDeadline(deadline)
+		n, _, err := c.ReadFromUDP(buf)
+		if err != nil {
+			return reps, false
+		}
+		b := clone(buf[:n])
+		if isSentinel(b) {
+			return reps, true
+		}
+		reps = append(reps, b)
+	}
+}
+
+// ---- srv.ip ----
+
+func (e *netEnv) runIP(a []val) string {
+	dst := &net.UDPAddr{IP: e.srvIP, Port: ipPort}
+	var obs []string
+	lost := false
+	for _, d := range a[0].l {
+		s := e.nextSentinel()
+		reps, ok := e.exchange(dst, d.b, s, e.isSentinelReply)
+		replied, rlen := 0, 0
+		if len(reps) > 0 {
+			replied, rlen = 1, len(reps[0])
+		}
+		obs = append(obs, lib.L(lib.I(int64(replied)), lib.I(int64(rlen)), lib.Bool(ok)))
+		if !ok {
+			lost = true
+			break
+		}
+	}
+	ntsOK := false
+	if !lost {
+		req, check := e.ntsSentinel()
+		_, ntsOK = e.exchange(dst, nil, req, check)
+	}
+	return lib.V("1", lib.L(obs...), lib.Bool(ntsOK))
+}
+
+// ---- SCION packets ----
+
+type scionSpec struct {
+	dstIA, srcIA     uint64
+	dstType, srcType uint8
+	dstRaw, srcRaw   []byte
+	pathType         uint8
+	pathRaw          []byte
+	udpSrc, udpDst   uint16
+	e2e              []*slayers.EndToEndOption
+	hbh              bool
+	scmp             int // 0 = UDP, else SCMP type
+}
+
+func buildPath(t uint8, raw []byte) (path.Path, error) {
+	switch path.Type(t) {
+	case empty.PathType:
+		return empty.Path{}, nil
+	case scionpath.PathType:
+		p := &scionpath.Raw{}
+		return p, p.DecodeFromBytes(clone(raw))
+	case onehop.PathType:
+		p := &onehop.Path{}
+		return p, p.DecodeFromBytes(clone(raw))
+	}
+	return nil, fmt.Errorf("unsupported path type %d", t)
+}
+
+func buildSCION(h *scionSpec, payload []byte) (b []byte, err error) {
+	defer func() {
+		if r := recover(); r != nil {
+			b, err = nil, fmt.Errorf("serialize: %v", r)
+		}
+	}()
+	p, err := buildPath(h.pathType, h.pathRaw)
+	if err != nil {
+		return nil, err
+	}
+	var scn slayers.SCION
+	scn.FlowID = 1
+	scn.PathType = path.Type(h.pathType)
+	scn.Path = p
+	scn.DstIA, scn.SrcIA = addr.IA(h.dstIA), addr.IA(h.srcIA)
+	scn.DstAddrType, scn.SrcAddrType = slayers.AddrType(h.dstType), slayers.AddrType(h.srcType)
+	scn.RawDstAddr, scn.RawSrcAddr = h.dstRaw, h.srcRaw
+	var layers []gopacket.SerializableLayer
+	l4 := slayers.L4UDP
+	if h.scmp != 0 {
+		l4 = slayers.L4SCMP
+	}
+	layers = append(layers, &scn)
+	next := &scn.NextHdr
+	*next = l4
+	if h.hbh {
+		hb := &slayers.HopByHopExtn{}
+		hb.Options = []*slayers.HopByHopOption{{OptType: 200, OptData: []byte{1, 2, 3, 4}}}
+		*next = slayers.HopByHopClass
+		hb.NextHdr = l4
+		next = &hb.NextHdr
+		layers = append(layers, hb)
+	}
+	if len(h.e2e) > 0 {
+		ee := &slayers.EndToEndExtn{}
+		ee.Options = h.e2e
+		*next = slayers.End2EndClass
+		ee.NextHdr = l4
+		layers = append(layers, ee)
+	}
+	if h.scmp != 0 {
+		sc := &slayers.SCMP{TypeCode: slayers.CreateSCMPTypeCode(slayers.SCMPType(h.scmp), 0)}
+		sc.SetNetworkLayerForChecksum(&scn)
+		layers = append(layers, sc)
+		switch slayers.SCMPType(h.scmp) {
+		case slayers.SCMPTypeEchoRequest:
+			layers = append(layers, &slayers.SCMPEcho{Identifier: 7, SeqNumber: 9})
+		case slayers.SCMPTypeTracerouteRequest:
+			layers = append(layers, &slayers.SCMPTraceroute{Identifier: 7, Sequence: 9})
+		}
+	} else {
+		u := &slayers.UDP{}
+		u.SrcPort, u.DstPort = h.udpSrc, h.udpDst
+		u.SetNetworkLayerForChecksum(&scn)
+		layers = append(layers, u)
+	}
+	layers = append(layers, gopacket.Payload(payload))
+	sb := gopacket.NewSerializeBuffer()
+	err = gopacket.SerializeLayers(sb, gopacket.SerializeOptions{ComputeChecksums: true, FixLengths: true}, layers...)
+	if err != nil {
+		return nil, err
+	}
+	return clone(sb.Bytes()), nil
+}
+
+// scionPayload extracts the UDP payload of a datagram received from the listener.
+func scionPayload(b []byte) (pl []byte, srcPort uint16, ok bool) {
+	defer func() {
+		if recover() != nil {
+			ok = false
+		}
+	}()
+	var (
+		scn slayers.SCION
+		hbh slayers.HopByHopExtnSkipper
+		e2e slayers.EndToEndExtnSkipper
+		u   slayers.UDP
+		sc  slayers.SCMP
+	)
+	parser := gopacket.NewDecodingLayerParser(slayers.LayerTypeSCION, &scn, &hbh, &e2e, &u, &sc)
+	parser.IgnoreUnsupported = true
+	decoded := make([]gopacket.LayerType, 0, 4)
+	if err := parser.DecodeLayers(b, &decoded); err != nil || len(decoded) < 2 {
+		return nil, 0, false
+	}
+	if decoded[len(decoded)-1] != slayers.LayerTypeSCIONUDP {
+		return nil, 0, false
+	}
+	return u.Payload, u.SrcPort, true
+}
+
+func (e *netEnv) baseSpec(dstPort uint16) *scionSpec {
+	return &scionSpec{dstIA: localIA, srcIA: localIA, dstType: 0, srcType: 0,
+		dstRaw: []byte(e.srvIP.To4()), srcRaw: []byte(e.peerIP.To4()), pathType: 0,
+		udpSrc: 40123, udpDst: dstPort}
+}
+
+func (e *netEnv) runSCION(a []val) string {
+	var ss []string
+	for _, st := range a[0].l {
+		under := int(st.l[0].z)
+		dst := &net.UDPAddr{IP: e.srvIP, Port: under}
+		s := e.nextSentinel()
+		sh := e.baseSpec(scionPort)
+		sh.udpSrc = uint16(e.sock.LocalAddr().(*net.UDPAddr).Port)
+		spkt, err := buildSCION(sh, s)
+		if err != nil {
+			panic(err)
+		}
+		// same socket, same listener goroutine: the sentinel queues behind the crafted datagram.  On
+		// the end-host port the sentinel is a request the forwarder has to pass on to the listener,
+		// whose reply comes back through the forwarder.
+		_, ok := e.exchange(dst, st.l[1].b, spkt, func(b []byte) bool {
+			pl, _, ok := scionPayload(b)
+			return ok && e.isSentinelReply(pl)
+		})
+		ss = append(ss, lib.Bool(ok))
+		if !ok {
+			break
+		}
+	}
+	return lib.V("1", lib.L(ss...))
+}
+
+// ---- srv.csptp ----
+
+func csptpSync(seq uint16) []byte {
+	b := make([]byte, 44)
+	m := csptp.Message{SdoIDMessageType: csptp.MessageTypeSync, PTPVersion: csptp.PTPVersion, MessageLength: 44,
+		FlagField: csptp.FlagTwoStep | csptp.FlagUnicast, SequenceID: seq, ControlField: csptp.ControlSync,
+		SourcePortIdentity: csptp.PortID{Port: 1}}
+	csptp.EncodeMessage(b, &m)
+	return b
+}
+
+func csptpFollowUp(seq uint16, subtype2 byte, flags uint32) []byte {
+	tl := 36
+	if flags&1 == 1 {
+		tl = 54
+	}
+	b := make([]byte, 44+tl)
+	m := csptp.Message{SdoIDMessageType: csptp.MessageTypeFollowUp, PTPVersion: csptp.PTPVersion, MessageLength: uint16(len(b)),
+		FlagField: csptp.FlagUnicast, SequenceID: seq, ControlField: csptp.ControlFollowUp,
+		SourcePortIdentity: csptp.PortID{Port: 1}}
+	csptp.EncodeMessage(b[:44], &m)
+	t := b[44:]
+	binary.BigEndian.PutUint16(t[0:], csptp.TLVTypeOrganizationExtension)
+	binary.BigEndian.PutUint16(t[2:], uint16(tl))
+	copy(t[4:], []byte{0xec, 0x46, 0x70, 0x52, 0x65, subtype2})
+	binary.BigEndian.PutUint32(t[10:], flags)
+	return b
+}
+
+func (e *netEnv) runCSPTPServer(a []val) string {
+	port := int(a[0].z)
+	dst := &net.UDPAddr{IP: e.srvIP, Port: port}
+	from := e.csock.LocalAddr().(*net.UDPAddr).AddrPort().String()
+	e.clog.take(from)
+	e.seq++
+	sseq := uint16(0xC000 | e.seq&0x3fff)
+	var sentinel []byte
+	if port == csptp.EventPortIP {
+		sentinel = csptpSync(sseq)
+	} else {
+		sentinel = csptpFollowUp(sseq, 0x71, 1)
+	}
+	e.csock.WriteToUDP(a[1].b, dst)
+	e.csock.WriteToUDP(sentinel, dst)
+	deadline := time.Now().Add(readLimit)
+	accepted, answered := 0, false
+	for time.Now().Before(deadline) && !answered {
+		for _, s := range e.clog.take(from) {
+			if s == sseq {
+				answered = true
+			} else {
+				accepted++
+			}
+		}
+		if !answered {
+			time.Sleep(2 * time.Millisecond)
+		}
+	}
+	if accepted > 1 {
+		accepted = 1
+	}
+	return lib.V("1", lib.I(int64(accepted)), lib.Bool(answered))
+}
+
+// ---- srv.ntske (TLS) ----
+
+func ntskeRequest() []byte {
+	var req ntske.ExchangeMsg
+	req.AddRecord(ntske.NextProto{NextProto: ntske.NTPv4})
+	req.AddRecord(ntske.Algorithm{Algo: []uint16{ntske.AES_SIV_CMAC_256}})
+	req.AddRecord(ntske.End{})
+	b, err := req.Pack()
+	if err != nil {
+		panic(err)
+	}
+	return b.Bytes()
+}
+
+func (e *netEnv) keExchange(stream []byte, wantCookies bool) bool {
+	d := &net.Dialer{Timeout: 10 * time.Second, LocalAddr: &net.TCPAddr{IP: e.peerIP}}
+	conn, err := tls.DialWithDialer(d, "tcp", net.JoinHostPort(e.srvIP.String(), "4460"),
+		&tls.Config{InsecureSkipVerify: true, NextProtos: []string{"ntske/1"}, MinVersion: tls.VersionTLS13})
+	if err != nil {
+		note("ntske dial: " + err.Error())
+		return false
+	}
+	defer conn.Close()
+	conn.SetDeadline(time.Now().Add(readLimit))
+	// in pieces, to exercise the record reader across reads
+	for len(stream) > 0 {
+		n := min(len(stream), 7)
+		if _, err := conn.Write(stream[:n]); err != nil {
+			break
+		}
+		stream = stream[n:]
+	}
+	conn.CloseWrite()
+	var data ntske.Data
+	err = ntske.ReadData(context.Background(), discardLog, bufio.NewReader(conn), &data)
+	if !wantCookies {
+		return true
+	}
+	return err == nil && len(data.Cookie) > 0
+}
+
+func (e *netEnv) runNTSKEServer(a []val) string {
+	e.keExchange(a[0].b, false)
+	ok := e.keExchange(ntskeRequest(), true)
+	return lib.V("1", lib.L(lib.Bool(ok)))
+}
+
+// ---- srv.quic: datagrams to the QUIC-over-SCION socket of the NTS-KE server ----
+
+func (e *netEnv) quicSentinel() bool {
+	f := &ntske.Fetcher{Log: discardLog}
+	f.TLSConfig = tls.Config{InsecureSkipVerify: true, NextProtos: []string{"ntske/1"}, MinVersion: tls.VersionTLS13, ServerName: "c08"}
+	f.QUIC.Enabled = true
+	f.QUIC.LocalAddr = udp.UDPAddr{IA: addr.IA(localIA), Host: &net.UDPAddr{IP: e.peerIP}}
+	f.QUIC.RemoteAddr = udp.UDPAddr{IA: addr.IA(localIA), Host: &net.UDPAddr{IP: e.srvIP, Port: kePortSCION}}
+	res := make(chan bool, 1)
+	go func() {
+		defer func() {
+			if recover() != nil {
+				res <- false
+			}
+		}()
+		ctx, cancel := context.WithTimeout(context.Background(), readLimit)
+		defer cancel()
+		d, err := f.FetchData(ctx)
+		if err != nil {
+			note("quic sentinel: " + err.Error())
+		}
+		res <- err == nil && len(d.Cookie) > 0
+	}()
+	select {
+	case ok := <-res:
+		return ok
+	case <-time.After(readLimit + 5*time.Second):
+		return false
+	}
+}
+
+func (e *netEnv) runQUIC(a []val) string {
+	dst := &net.UDPAddr{IP: e.srvIP, Port: kePortSCION}
+	for _, d := range a[0].l {
+		e.sock.WriteToUDP(d.b, dst)
+	}
+	time.Sleep(50 * time.Millisecond)
+	ok := e.quicSentinel()
+	return lib.V("1", lib.L(lib.Bool(ok)))
+}
+
+func runNet(j job) (string, bool) {
+	switch j.kind {
+	case "srv.ip", "srv.scion", "srv.csptp", "srv.ntske", "srv.quic", "cli.ip", "cli.nts", "cli.scion", "cli.csptp":
+	default:
+		return "", false
+	}
+	e := setupNet()
+	a := parseVals(j.args)
+	switch j.kind {
+	case "srv.ip":
+		return e.runIP(a), true
+	case "srv.scion":
+		return e.runSCION(a), true
+	case "srv.csptp":
+		return e.runCSPTPServer(a), true
+	case "srv.ntske":
+		return e.runNTSKEServer(a), true
+	case "srv.quic":
+		return e.runQUIC(a), true
+	}
+	return runClient(e, j, a), true
+}
+
+var _ = bytes.Equal
